@@ -1551,7 +1551,7 @@ def run(ctx):
         ctx.oblige("tie:T3-shape-recognised", False, str(e))
 
     # ---- S3: models ---------------------------------------------------------------------------
-    n_plain = int(os.environ.get("C11_N", 0)) or ctx.scaled(150, 1200)
+    n_plain = int(os.environ.get("C11_N", 0)) or ctx.scaled(110, 1200)
     n_ne = ctx.scaled(6, 40)
     n_r3 = ctx.scaled(6, 40)
     n_eo = ctx.scaled(4, 30)
@@ -1566,8 +1566,8 @@ def run(ctx):
         models.append(finalize(gen_model(ctx.rng, "for3"), ctx.rng, npts))
     for _ in range(n_eo):
         models.append(finalize(gen_model(ctx.rng, "emptyoff"), ctx.rng, npts))
-    n_fun = ctx.scaled(24, 150)
-    n_mat = ctx.scaled(50, 400)
+    n_fun = ctx.scaled(18, 150)
+    n_mat = ctx.scaled(40, 400)
     for _ in range(n_fun):
         base = finalize(gen_fun_model(ctx.rng), ctx.rng, npts)
         for opt in (None, {"inline_functions": False}, {"unroll_loops": False}):
@@ -1621,10 +1621,11 @@ def run(ctx):
         for c in cs_:
             enc.append(c)
             owner.append(i)
-    bad = core.coq_eval_cases(ctx, "models",
+    pool2 = ThreadPoolExecutor(max_workers=2)
+    f_bad = pool2.submit(core.coq_eval_cases, ctx, "models",
                               "From Coq Require Import ZArith QArith Qcanon.\nImport ListNotations.\n"
                               "From PV Require Import Model.C11_residual.\nFrom RunC11 Require Import Gen.\nOpen Scope Qc_scope.\n",
-                              "case", enc, "check_case", shard=ctx.scaled(60, 150), timeout=1500)
+                              "case", enc, "check_case", ctx.scaled(60, 150), 1500)
     xenc, xowner = [], []
     for i, (m, r) in enumerate(zip(models, results)):
         cs_ = encode_xcases(m, r)
@@ -1638,6 +1639,8 @@ def run(ctx):
                                "From PV Require Import Model.C11_residual Model.C11_functions Model.C11_arrays Model.C11_cases.\n"
                                "From RunC11 Require Import Gen.\nOpen Scope Qc_scope.\n",
                                "xcase", xenc, "check_xcase", shard=ctx.scaled(40, 120), timeout=1500)
+    bad = f_bad.result()
+    pool2.shutdown()
     ctx.oblige("correspondence:function-and-array-model-vs-casadi-generator", xbad == [],
                "mismatching cases: %s" % ([xowner[j] for j in (xbad or [])][:10] if xbad is not None else "coqc failed"))
     if xbad and not ctx.violations:
